@@ -1146,6 +1146,22 @@ Qed.
 Definition sem_constant_spec (A : Type) (sem : string -> list nat -> list (tensor A) -> option (list (tensor A))) (mkZ : list Z -> tensor A) : Prop :=
   forall l, sem "Constant"%string (5 :: map (fun k => 2 * k) l) [] = Some [mkZ (map Z.of_nat l)].
 
+Theorem transpose_reduce_step_sound (A : Type) sem :
+  (forall op ats vs vs' o, Forall2 teq vs vs' -> sem op ats vs = Some o -> exists o', sem op ats vs' = Some o' /\ Forall2 teq o o') ->
+  sem_transpose_spec A sem op_type ->
+  forall reduce, reduce_laws A reduce ->
+  forall denoteZ, (forall v v', teq v v' -> denoteZ v = denoteZ v') -> sem_reducemean_spec A sem op_type denoteZ reduce ->
+  forall mkZ : list Z -> tensor A, (forall l, denoteZ (mkZ l) = Some l) -> sem_constant_spec A sem mkZ ->
+  forall g T2 a e ef, radm A sem denoteZ g e -> tight A g e -> In T2 (rt_nodes g) -> decide_tr g T2 = Some a ->
+    eval (tensor A) sem (rt_nodes g) e = Some ef ->
+    radm A sem denoteZ (apply_tr g a) e /\ tight A (apply_tr g a) e /\
+    (forall o, run (tensor A) sem (rt_graph g) e = Some o ->
+       exists o', run (tensor A) sem (rt_graph (apply_tr g a)) e = Some o' /\ Forall2 teq o o').
+Proof.
+  intros Hp Ht reduce (H1 & H2 & H3 & H4) denoteZ Hd (Hr1 & Hr2) mkZ Hm Hc.
+  exact (tr_step_sound A sem Hp Ht reduce H1 H2 H3 H4 denoteZ Hd Hr1 Hr2 mkZ Hm Hc).
+Qed.
+
 Theorem transpose_reduce_pass_sound (A : Type) sem :
   (forall op ats vs vs' o, Forall2 teq vs vs' -> sem op ats vs = Some o -> exists o', sem op ats vs' = Some o' /\ Forall2 teq o o') ->
   sem_transpose_spec A sem op_type ->
